@@ -550,10 +550,10 @@ def main(tier):
     return run.finish("proof", (nthm, ndis), trusted_base=tb,
                       checker_cmd="make -C /verif all && coqc -Q coq A1 coq/Props/Properties_C17.v",
                       extra_cov={"theorems": names, "zones": run.notes, "violation_kinds": vk,
-                                 "rule": "arc vectors of length 0..12 over the boundary set x random, every valid/invalid first-pair class; octet strings with 0x80 leads, 5..7-octet subidentifiers, truncations; dotted texts per state transition; times at year boundaries, leap days, -1, +-2^31, random, under each zone; a case is one command line",
+                                 "rule": "arc vectors of length 0..12 over the boundary set x random, every valid/invalid first-pair class; octet strings with 0x80 leads, 5..7-octet subidentifiers, truncations; dotted texts per state transition; times at year boundaries, leap days, -1, +-2^31, random, under each zone; round 2: every valid vector / text x every capacity N,0..n+2 of the caller's array (get_arcs, RELATIVE_OID_get_arcs, parse_arcs with explicit length and with strlen), arbitrary octets / texts x capacities against the C's own large-capacity answer, every buffer length 0..n+2 for get_single_arc / first arcs, XER body decode around 10 / 6 arcs, XER body writer size, set_arcs and asn_time2GT/UT on caller-owned objects of every buffer size; a case is one command line",
                                  "traces_validated_against_impl": len(lines)},
                       assumptions=["models of OBJECT_IDENTIFIER.c / RELATIVE-OID.c / GeneralizedTime.c / UTCTime.c are hand-written; tied by differential run only on the generated cases",
-                                   "NULL arguments, allocation failure, arc_slots smaller than the arc count are not modelled",
+                                   "NULL arguments (other than a NULL array with 0 slots) and allocation failure are not modelled; memory ownership of the time writers / set_arcs (old buffer freed, object untouched on failure) is checked on the C only (ASan/LSan), not modelled",
                                    "libc time functions and the TZ database are modelled by proleptic Gregorian arithmetic plus the offset the libc reports"])
 
 
